@@ -126,6 +126,7 @@ OVERLAYS = {
     "snaps_sched_nontest.go": ("snaps", "zz_verif_sched_nontest.go"),
     "snaps_sched_test.go": ("snaps", "zz_verif_sched_test.go"),
     "snaps_frame_test.go": ("snaps", "zz_verif_frame_test.go"),
+    "snaps_lock_test.go": ("snaps", "zz_verif_lock_test.go"),
 }
 
 
